@@ -796,7 +796,7 @@ def main(tier, seed):
     if thorough and not chk.violations:
         check_words(chk, 8)
     # T: random / mutated
-    recs, meta = random_records(chk, rng, 40000 if thorough else 3000, 15000 if thorough else 1200, 10 if thorough else 5)
+    recs, meta = random_records(chk, rng, 40000 if thorough else 6000, 15000 if thorough else 2500, 10 if thorough else 5)
     validate_records(chk, recs, meta, "random+mutated")
     chk.extra["records"] = {"total": len(recs), "by_source": {w: sum(1 for m in meta.values() if m["where"] == w) for w in sorted(set(m["where"] for m in meta.values()))},
                             "decoded_ok": sum(1 for r in recs if r["k"] == "dec" and r["ok"])}
